@@ -12,6 +12,7 @@ use std::collections::BTreeMap;
 
 pub mod c03;
 pub mod c04;
+pub mod c14;
 pub mod c15;
 
 #[derive(Clone, Copy, Debug, PartialEq, Serialize, Deserialize)]
@@ -169,6 +170,8 @@ pub struct CaseReport {
     pub violations: Vec<FoundViolation>,
     pub sample: Option<serde_json::Value>,
     pub families: BTreeMap<String, u64>,
+    #[serde(default)]
+    pub known_hits: BTreeMap<String, u64>,
 }
 
 #[derive(Clone, Debug, Serialize, Deserialize)]
@@ -254,7 +257,7 @@ fn absorb(rep: &mut CaseReport, scn: &Scenario, r: &RunResult, nworkers: usize) 
 }
 
 /// One case: generate a scenario, run the reference and the variants, judge, minimise.
-pub fn run_case(prop: &dyn Property, base_seed: u64, case: u64, tier: Tier, replay_dir: &str) -> CaseReport {
+pub fn run_case(prop: &dyn Property, base_seed: u64, case: u64, tier: Tier, replay_dir: &str, known: &[String]) -> CaseReport {
     let case_seed = mix(&[base_seed, fxhash(prop.id()), case]);
     let mut rng = Rng::new(case_seed);
     let mut scn = prop.generate(&mut rng, tier);
@@ -266,7 +269,7 @@ pub fn run_case(prop: &dyn Property, base_seed: u64, case: u64, tier: Tier, repl
         let spec = reference_spec(&scn, case_seed);
         let r = run_spec(prop, &scn, spec.clone(), false);
         absorb(&mut rep, &scn, &r, 1);
-        let vs = all_violations(prop, &scn, None, &r);
+        let vs = split_known(all_violations(prop, &scn, None, &r), known, &mut rep, prop, &scn, None, &spec, &r, case_seed, replay_dir);
         scn.est_len = r.steps.max(10);
         if let Some(v) = vs.first() {
             let path = report(prop, &scn, None, &spec, &r, v, case_seed, replay_dir);
@@ -310,7 +313,7 @@ pub fn run_case(prop: &dyn Property, base_seed: u64, case: u64, tier: Tier, repl
         for (k, n) in prop.run_probes(&scn, &r) {
             *rep.probes.entry(k).or_insert(0) += n;
         }
-        let vs = all_violations(prop, &scn, refdata.as_ref(), &r);
+        let vs = split_known(all_violations(prop, &scn, refdata.as_ref(), &r), known, &mut rep, prop, &scn, refdata.as_ref(), &spec, &r, case_seed, replay_dir);
         if let Some(viol) = vs.first() {
             let (mspec, mres, mviol) = minimise(prop, &scn, refdata.as_ref(), &spec, &r, viol);
             let mut path = report(prop, &scn, refdata.as_ref(), &mspec, &mres, &mviol, case_seed, replay_dir);
@@ -324,6 +327,30 @@ pub fn run_case(prop: &dyn Property, base_seed: u64, case: u64, tier: Tier, repl
         }
     }
     rep
+}
+
+/// Separate violations whose key is a listed known finding: they are recorded (with one
+/// un-minimised replay file per key and process) but do not end the exploration of the case.
+#[allow(clippy::too_many_arguments)]
+fn split_known(vs: Vec<Violation>, known: &[String], rep: &mut CaseReport, prop: &dyn Property, scn: &Scenario, refdata: Option<&RefData>, spec: &RunSpec, r: &RunResult, case_seed: u64, replay_dir: &str) -> Vec<Violation> {
+    use std::sync::Mutex;
+    static WRITTEN: Mutex<Vec<String>> = Mutex::new(Vec::new());
+    let mut rest = Vec::new();
+    for v in vs {
+        if known.contains(&v.key) {
+            *rep.known_hits.entry(v.key.clone()).or_insert(0) += 1;
+            let mut w = WRITTEN.lock().unwrap();
+            if !w.contains(&v.key) {
+                w.push(v.key.clone());
+                drop(w);
+                let path = report(prop, scn, refdata, spec, r, &v, case_seed, replay_dir);
+                rep.violations.push(FoundViolation { prop: v.prop.clone(), key: v.key.clone(), rule: v.rule.clone(), detail: v.detail.clone(), replay: path });
+            }
+        } else {
+            rest.push(v);
+        }
+    }
+    rest
 }
 
 pub fn op_source(op: &ClientOp) -> String {
@@ -538,6 +565,7 @@ pub fn lookup(id: &str) -> Option<Box<dyn Property>> {
     match id {
         "C03" => Some(Box::new(c03::C03)),
         "C04" => Some(Box::new(c04::C04)),
+        "C14" => Some(Box::new(c14::C14)),
         "C15" => Some(Box::new(c15::C15)),
         _ => None,
     }
